@@ -149,6 +149,9 @@ func (e *Exec) callVal(s *State, cc *ssa.CallCommon, args []Val, setRes func(*St
 					f := "|ext." + sanitize(why) + "|"
 					e.declSort(rs)
 					e.decl(fmt.Sprintf("(declare-fun %s (%s) %s)", f, strings.Join(sorts, " "), rs))
+					if why == "(time.Time).IsZero" {
+						e.timeZeroAxiom(sig.Recv().Type())
+					}
 					r := S("%s", app(f, terms...))
 					if bt, ok := sig.Results().At(0).Type().Underlying().(*types.Basic); ok {
 						if lo, hi, ok := intRange(bt); ok {
@@ -1071,4 +1074,12 @@ func (e *Exec) prove(kind, ord string, tags []string, s *State, x SExpr, env *Sp
 		}
 		e.obligeK(kind, o, tags, st, g, desc)
 	}
+}
+
+// time.Time{}.IsZero() is true (the only fact about the otherwise uninterpreted IsZero)
+func (e *Exec) timeZeroAxiom(tt types.Type) {
+	zt, sorts := e.leaves(tt, zero(tt))
+	z := "|ext." + sanitize("(time.Time).IsZero") + "|"
+	e.decl(fmt.Sprintf("(declare-fun %s (%s) Bool)", z, strings.Join(sorts, " ")))
+	e.axiomOnce("time.iszero.zero", app(z, zt...))
 }
